@@ -696,12 +696,15 @@ def seq_elem(cell, e):
         return VInt(e)
     if cell.elem == 'box':
         return VBox(e)
+    if cell.elem == 'rec':
+        from .values import VRecId
+        return VRecId(e)
     raise Unsupported('sequence element kind %s' % cell.elem)
 
 
 def elem_sort(kind):
     return {'bytes': z3.StringSort(), 'str': z3.StringSort(),
-            'int': z3.IntSort(), 'box': Val}[kind]
+            'int': z3.IntSort(), 'box': Val, 'rec': z3.IntSort()}[kind]
 
 
 def elem_expr(kind, v):
